@@ -40,7 +40,7 @@ start: stmt ";"?
 ?stmt: create_table | create_index | pragma | insert | update | delete | select
 create_table: "CREATE"i "TABLE"i ("IF"i "NOT"i "EXISTS"i)? NAME "(" coldef ("," coldef)* ("," fk)* ")"
 coldef: NAME TYPE colopt*
-colopt: "PRIMARY"i "KEY"i -> pk | "AUTOINCREMENT"i -> autoinc | "UNIQUE"i -> unique | "NOT"i "NULL"i -> notnull
+colopt: "PRIMARY"i "KEY"i -> pk | "AUTOINCREMENT"i -> autoinc | "UNIQUE"i -> unique | "NOT"i "NULL"i -> notnull | "COLLATE"i NAME -> collate | "DEFAULT"i (NUMBER | STRING | NAME) -> default
 fk: "FOREIGN"i "KEY"i "(" NAME ")" "REFERENCES"i NAME "(" NAME ")"
 create_index: "CREATE"i UNIQUE? "INDEX"i ("IF"i "NOT"i "EXISTS"i)? NAME "ON"i NAME "(" NAME ("," NAME)* ")"
 pragma: "PRAGMA"i NAME "=" NAME
@@ -71,6 +71,7 @@ CMP: ">=" | "<=" | "!=" | "<>" | "==" | "=" | "<" | ">"
 TYPE: "INTEGER"i | "TEXT"i | "REAL"i
 NAME: /(?!(?i:WHERE|AND|OR|ORDER|LIMIT|FROM|SET|VALUES|IN|SELECT|ASC|DESC|INTO|BY)\b)[A-Za-z_][A-Za-z_0-9]*/
 NUMBER: /-?\d+/
+STRING: /'[^']*'/
 %import common.WS
 %ignore WS
 """
@@ -284,7 +285,10 @@ def _build(tree):
                     name = str(c.children[0])
                     opts = {str(c.children[1]).upper()}
                     for o in c.children[2:]:
-                        opts.add(o.data if isinstance(o, Tree) else str(o))
+                        if isinstance(o, Tree) and o.data in ("collate", "default"):
+                            opts.add(f"{o.data}:{str(o.children[0]).upper()}")
+                        else:
+                            opts.add(o.data if isinstance(o, Tree) else str(o))
                     st.coldefs[name] = opts
         elif t.data == "create_index":
             toks = [x for x in ch if isinstance(x, Token)]
@@ -520,6 +524,23 @@ def sql_sites(prog, mod_name="aw_datastore.storages.sqlite"):
     return cache[mod_name]
 
 
+def _text_table(e, fi, prog):
+    """TABLE[key] with TABLE a class-level / module-level dict literal whose values are all string constants -> the values"""
+    if not isinstance(e, ast.Subscript):
+        return None
+    base = e.value
+    d = None
+    if isinstance(base, ast.Attribute) and isinstance(base.value, ast.Name) and fi.cls is not None and base.value.id in ("self", "cls", fi.cls.name):
+        d = fi.cls.attrs.get(base.attr)
+    elif isinstance(base, ast.Name):
+        d = fi.mod.consts.get(base.id)
+    if isinstance(d, ast.Dict) and d.values:
+        texts = [fold_str(v, fi, prog) for v in d.values]
+        if all(t is not None for t in texts):
+            return texts
+    return None
+
+
 def _sql_sites(prog, mod_name):
     mi = prog.module(mod_name)
     sites = []
@@ -533,6 +554,19 @@ def _sql_sites(prog, mod_name):
             if not call.args:
                 continue
             text = fold_str(call.args[0], fi, prog)
+            alts = _text_table(call.args[0], fi, prog) if text is None else None
+            if alts:
+                # the statement is picked from a literal table of statements: one site per entry (same call, same bindings)
+                for t_ in alts:
+                    st_ = parse_sql(t_)
+                    site_ = SqlSite(fi, call, st_, None, f.attr == "executemany")
+                    b_ = call.args[1] if len(call.args) > 1 else None
+                    site_.bindings = list(b_.elts) if isinstance(b_, (ast.List, ast.Tuple)) and not any(isinstance(x, ast.Starred) for x in b_.elts) else ([] if b_ is None else None)
+                    if site_.bindings is not None and len(site_.bindings) != st_.n_params:
+                        raise AnalysisError(f"{fi.loc(call)} {fi.short}: {st_.n_params} placeholders but {len(site_.bindings)} bound expressions")
+                    site_.from_table = True
+                    sites.append(site_)
+                continue
             if text is None:
                 raise AnalysisError(f"{fi.loc(call)} {fi.short}: SQL text of .{f.attr}() is not a compile-time string: {norm(call.args[0])[:80]}", fi.loc(call))
             if f.attr == "executescript":
